@@ -166,10 +166,16 @@ PROPS['C18'] = {
 
 PROPS['C02'] = {
     'level': 'proof', 'claimed': True,
-    'claim': 'unbounded no-panic proofs (every index/slice/nil/division fault obligation discharged for all byte streams, the reader being an arbitrary source of lines/runes) for the functions listed in functions_under_contract; started with fileutils.ReadUntilSemiColon (multi-tree splitter) - further reader functions are added as their obligations discharge',
+    'claim': 'unbounded no-panic proofs (every index/slice/nil/division fault obligation discharged for all byte streams, the reader being an arbitrary source of lines/runes) for the functions listed in functions_under_contract; so far: the Newick stream splitter, the multi-tree reader goroutine, the single-tree entry point, and the whole Nexus scanner and parser (every loop additionally proved to terminate: each iteration consumes input of the abstract rune stream or sets its stop flag; end of input inside a comment, command or block is reported as an error)',
     'level_note': 'bufio/bytes/strings/strconv are trusted to be total and to return well-typed values; termination is proved only where a decreases clause is given; memory and stack exhaustion are environment facts',
     'packages': ALLPK,
-    'functions': ['io/fileutils.ReadUntilSemiColon', 'io/utils.ReadMultiTrees$1', 'io/utils.ReadTreeReader'],
+    'functions': ['io/fileutils.ReadUntilSemiColon', 'io/utils.ReadMultiTrees$1', 'io/utils.ReadTreeReader',
+                  '(*io/nexus.Scanner).read', '(*io/nexus.Scanner).unread', '(*io/nexus.Scanner).scanWhitespace', '(*io/nexus.Scanner).scanIdent',
+                  '(*io/nexus.Scanner).Scan', '(*io/nexus.Parser).scan', '(*io/nexus.Parser).unscan', '(*io/nexus.Parser).scanIgnoreWhitespace',
+                  '(*io/nexus.Parser).scanIgnoreWhitespaceAndEOL', '(*io/nexus.Parser).consumeComment', '(*io/nexus.Parser).parseUnsupportedCommand',
+                  '(*io/nexus.Parser).parseUnsupportedKey', '(*io/nexus.Parser).parseUnsupportedBlock', '(*io/nexus.Parser).parseData',
+                  '(*io/nexus.Parser).parseTaxa', '(*io/nexus.Parser).parseTranslationTable', '(*io/nexus.Parser).parseTrees',
+                  ('(*io/nexus.Parser).Parse', {'match': [r'^nil', r'^bounds', r'^div0', r'^typeassert', r'^nopanic', r'^decreases', r'^inv', r'^pre', r'^noexit']})],
     'trusted_base': TB_COMMON,
     'assumptions': A_COMMON,
     'not_decided': ['memory / stack exhaustion on huge nesting', 'faults inside encoding/xml, encoding/json, bufio, strconv, goalign'],
